@@ -70,8 +70,17 @@ Definition domain : list (string * string) :=
 
 (* ---------------------------------------------------------------- recycle flags *)
 Record flags := { f_trafo : bool; f_gen : bool; f_bus_pq : bool }.
-(* ConstControl.set_recycle; [user_off] = the controller was created with recycle=False; None = recycle False *)
+(* ConstControl.set_recycle (after "fix: ConstControl only claims the recycle flag trafo for transformer parameters");
+   [user_off] = the controller was created with recycle=False; None = recycle False *)
 Definition set_recycle_const (user_off : bool) (e v : string) : option flags :=
+  if user_off || negb (mems e ["load"; "sgen"; "storage"; "gen"; "ext_grid"; "trafo"; "trafo3w"]) then None
+  else
+    let bus_pq := mems e ["sgen"; "load"; "storage"] && mems v ["p_mw"; "q_mvar"; "scaling"] in
+    let gen := (e =? "gen") && mems v ["p_mw"; "vm_pu"; "scaling"] || (e =? "ext_grid") && mems v ["vm_pu"; "va_degree"] in
+    let trafo := mems e ["trafo"; "trafo3w"] && negb (mems v ["in_service"; "hv_bus"; "mv_bus"; "lv_bus"]) in
+    if trafo || gen || bus_pq then Some {| f_trafo := trafo; f_gen := gen; f_bus_pq := bus_pq |} else None.
+(* the rule before the repair: every column of line / trafo / trafo3w claimed the flag "trafo" *)
+Definition set_recycle_const_old (user_off : bool) (e v : string) : option flags :=
   if user_off || negb (mems e ["load"; "sgen"; "storage"; "gen"; "ext_grid"; "trafo"; "trafo3w"; "line"]) then None
   else
     let bus_pq := mems e ["sgen"; "load"; "storage"] && mems v ["p_mw"; "q_mvar"; "scaling"] in
@@ -89,6 +98,8 @@ Inductive ctrl :=
 | COther (e v : string).                      (* any other controller class: recycle False (basic_controller.py:174) *)
 Definition ctrl_flags (c : ctrl) : option flags :=
   match c with CConst u e v => set_recycle_const u e v | CTap u e => set_recycle_trafo u e | COther _ _ => None end.
+Definition ctrl_flags_old (c : ctrl) : option flags :=
+  match c with CConst u e v => set_recycle_const_old u e v | CTap u e => set_recycle_trafo u e | COther _ _ => None end.
 Definition ctrl_writes (c : ctrl) : string * string :=
   match c with CConst _ e v => (e, v) | CTap _ e => (e, "tap_pos") | COther e v => (e, v) end.
 
@@ -154,7 +165,12 @@ Definition sound (c : ctrl) : bool :=
   | None => true
   | Some f => solve_is_fresh (recycled_pf f (write (ctrl_writes c) all_fresh))
   end.
-(* G12a: syntactic description of the sound (element, variable) pairs of ConstControl: everything except the power-flow
+Definition sound_old (c : ctrl) : bool :=
+  match ctrl_flags_old c with
+  | None => true
+  | Some f => solve_is_fresh (recycled_pf f (write (ctrl_writes c) all_fresh))
+  end.
+(* G12a: syntactic description of the (element, variable) pairs that were sound under the OLD rule: everything except the power-flow
    relevant columns of net.line (recycled under the flag "trafo", which rebuilds transformers only) and in_service of
    transformers (the branch rows are rebuilt but the topology / bus types are not) *)
 Definition line_pf_vars : list string :=
@@ -166,29 +182,50 @@ Definition G12a (e v : string) : bool :=
 (* one entry of ow.log_variables: 2-tuples come from the constructor argument, entries added by log_variable() are longer *)
 Record logv := { l_table : string; l_var : string; l_long : bool }.
 Definition batch_tables : list string := ["res_bus"; "res_line"; "res_trafo"; "res_trafo3w"].
-(* _check_output_writer_recyclability (run_time_series.py:169-203); None = batch_read False (values are read from the
-   result tables after every power flow); dc = the run function is rundcpp *)
-Fixpoint eligible (dc f_trafo : bool) (l : list logv) : option (list (string * string)) :=
-  if dc then None else
-  match l with
-  | [] => Some []
-  | o :: l' =>
-      if negb (mems (l_table o) batch_tables) || f_trafo || l_long o then None
-      else match eligible dc f_trafo l' with
-           | None => None
-           | Some r => Some ((l_table o, l_var o) :: r)
-           end
-  end.
-(* the dicts built in get_batch_outputs (output_writer.py:565-583) *)
+(* the dicts built in get_batch_outputs (output_writer.py:565-588) = batch_variables in run_time_series.py *)
 Definition keys (t : string) : list string :=
   if t =? "res_line" then ["i_ka"; "i_from_ka"; "i_to_ka"; "loading_percent"]
   else if t =? "res_trafo" then ["i_ka"; "i_hv_ka"; "i_lv_ka"; "loading_percent"]
   else if t =? "res_trafo3w" then ["i_h"; "i_m"; "i_l"; "loading_percent"]
   else if t =? "res_bus" then ["vm_pu"; "va_degree"]
   else [].
+(* _check_output_writer_recyclability (run_time_series.py:169-210, after "fix: batch reading of time series outputs is only
+   chosen for variables the batch readers provide"); None = batch_read False (values are read from the result tables after
+   every power flow); dc = the run function is rundcpp *)
+Fixpoint eligible (dc f_trafo : bool) (l : list logv) : option (list (string * string)) :=
+  if dc then None else
+  match l with
+  | [] => Some []
+  | o :: l' =>
+      if negb (mems (l_table o) batch_tables) || negb (mems (l_var o) (keys (l_table o))) || f_trafo || l_long o then None
+      else match eligible dc f_trafo l' with
+           | None => None
+           | Some r => Some ((l_table o, l_var o) :: r)
+           end
+  end.
+(* before the repair the test looked at the table only *)
+Fixpoint eligible_old (dc f_trafo : bool) (l : list logv) : option (list (string * string)) :=
+  if dc then None else
+  match l with
+  | [] => Some []
+  | o :: l' =>
+      if negb (mems (l_table o) batch_tables) || f_trafo || l_long o then None
+      else match eligible_old dc f_trafo l' with
+           | None => None
+           | Some r => Some ((l_table o, l_var o) :: r)
+           end
+  end.
 Inductive berr := KeyError | ValueError.
-(* the if/elif chain: a table already in [results] falls through to "raise ValueError('Something went wrong')" *)
-Fixpoint batch (l : list (string * string)) (computed : list string) : option berr :=
+(* get_batch_outputs after "fix: OutputWriter.get_batch_outputs accepts several variables of the same result table":
+   every table is evaluated once, the variable is looked up in its dict *)
+Fixpoint batch (l : list (string * string)) : option berr :=
+  match l with
+  | [] => None
+  | (t, v) :: l' =>
+      if mems t batch_tables then (if mems v (keys t) then batch l' else Some KeyError) else Some ValueError
+  end.
+(* before the repair: a table already in [results] fell through to "raise ValueError('Something went wrong')" *)
+Fixpoint batch_old (l : list (string * string)) (computed : list string) : option berr :=
   match l with
   | [] => None
   | (t, v) :: l' =>
@@ -200,7 +237,7 @@ Fixpoint batch (l : list (string * string)) (computed : list string) : option be
         else None in
       match next with
       | None => Some ValueError
-      | Some c' => if mems v (keys t) then batch l' c' else Some KeyError
+      | Some c' => if mems v (keys t) then batch_old l' c' else Some KeyError
       end
   end.
 (* what run_timeseries does with the writer at the last time step *)
@@ -209,7 +246,13 @@ Definition writer (dc f_trafo : bool) (l : list logv) : wres :=
   match eligible dc f_trafo l with
   | None => WPerStep
   | Some [] => WPerStep                      (* empty batch_read list: nothing to read in batch *)
-  | Some b => match batch b [] with None => WBatchOk | Some e => WRaise e end
+  | Some b => match batch b with None => WBatchOk | Some e => WRaise e end
+  end.
+Definition writer_old (dc f_trafo : bool) (l : list logv) : wres :=
+  match eligible_old dc f_trafo l with
+  | None => WPerStep
+  | Some [] => WPerStep
+  | Some b => match batch_old b [] with None => WBatchOk | Some e => WRaise e end
   end.
 (* get_recycle_settings (:205-223): the writer is only looked at when the controllers are recyclable *)
 Definition ts_writer (rec : option flags) (l : list logv) : wres :=
@@ -217,7 +260,9 @@ Definition ts_writer (rec : option flags) (l : list logv) : wres :=
 (* spec side: every requested variable is recorded instead of failing *)
 Definition records_all (dc f_trafo : bool) (l : list logv) : Prop :=
   match writer dc f_trafo l with WRaise _ => False | _ => True end.
-(* G12b: the variable is one the batch dicts know, and no table other than res_trafo3w is requested twice *)
+Definition records_all_old (dc f_trafo : bool) (l : list logv) : Prop :=
+  match writer_old dc f_trafo l with WRaise _ => False | _ => True end.
+(* G12b (old rule): the variable is one the batch dicts know, and no table other than res_trafo3w is requested twice *)
 Definition keys_ok (b : list (string * string)) : bool := forallb (fun tv => mems (snd tv) (keys (fst tv))) b.
 Definition once_tables (b : list (string * string)) : list string :=
   filter (fun t => negb (t =? "res_trafo3w")) (map fst b).
